@@ -13,3 +13,8 @@ type (
 )
 
 var LocalMaps = true
+
+type Pool = sync.Pool
+type Cond = sync.Cond
+
+func NewCond(l Locker) *Cond { return sync.NewCond(l) }
